@@ -20,7 +20,7 @@ def tla_bool(b):
     return 'TRUE' if b else 'FALSE'
 
 
-def core_constants(cfg, special=(), raisers=(), versioned=()):
+def core_constants(cfg, special=(), raisers=(), versioned=(), quiet=()):
     voters = cfg.get('voters', ['a', 'b', 'c'])
     nodes = voters + cfg.get('spares', []) + cfg.get('observers', [])
     return [
@@ -35,6 +35,7 @@ def core_constants(cfg, special=(), raisers=(), versioned=()):
         'SpecialCids = %s' % tla_set(sorted(special)),
         'Raisers = %s' % tla_set(sorted(raisers)),
         'VersionedCids = %s' % tla_set(sorted(versioned)),
+        'QuietCids = %s' % tla_set(sorted(quiet)),
         'Journal = %s' % tla_bool(cfg.get('journal', False)),
         'DumpFile = %s' % tla_bool(cfg.get('dump', False)),
         'InitConnected = %s' % tla_bool(cfg.get('init_connected', False)),
@@ -83,6 +84,11 @@ def parse_stats(out):
     st = {'generated': 0, 'distinct': 0, 'queue': 0, 'depth': 0, 'completed': False, 'error': None}
     for m in _stat_re.finditer(out):
         st['generated'], st['distinct'], st['queue'] = int(m.group(1)), int(m.group(2)), int(m.group(3))
+    if st['distinct'] == 0:
+        # interrupted by the time bound: take the last progress line
+        for m in re.finditer(r'Progress\((\d+)\) at [^:]*:[^:]*:[^:]*: ([\d,]+) states generated \([^)]*\), ([\d,]+) distinct states found \([^)]*\), ([\d,]+) states left', out):
+            st['depth'] = int(m.group(1))
+            st['generated'], st['distinct'], st['queue'] = (int(m.group(k).replace(',', '')) for k in (2, 3, 4))
     m = _depth_re.search(out)
     if m:
         st['depth'] = int(m.group(1))
@@ -151,7 +157,8 @@ def validate_core_traces(traces, cfg, workdir, label='batch', timeout=1800):
     cf = os.path.join(workdir, label + '.cfg')
     with open(cf, 'w') as f:
         f.write('SPECIFICATION TSpec\nCONSTANTS\n')
-        for ln in core_constants(cfg, special_cids(traces, ('add', 'rem', 'ver')), special_cids(traces, ('boom',)), special_cids(traces, ('vop',))):
+        for ln in core_constants(cfg, special_cids(traces, ('add', 'rem', 'ver')), special_cids(traces, ('boom',)), special_cids(traces, ('vop',)),
+                                 {st['a'][2] for tr in traces for st in tr if st['a'][0] == 'Submit' and str(st['a'][2]).startswith('q')}):
             f.write('  ' + ln + '\n')
         f.write('CHECK_DEADLOCK FALSE\n')
     rc, out, wall = run_tlc('CoreTrace.tla', cf, workdir, env={'TRACE_FILE': tf}, workers=1, timeout=timeout)
